@@ -85,7 +85,13 @@ def run(ctx, chk, tier):
             if same(tab[name], oracle[name]):
                 chk.hold("R01.1", inst, "cm[%s/%s] %s = %s" % (sc, ec, name.upper(), show(tab[name])))
             elif not understood(tab[name]):
-                chk.unknown("R01.1", "cell %s of cm() is built from constructs outside the counting model: %s" % (inst, show(tab[name], 200)))
+                from .c10 import depends_nonpointwise
+                bad_op = depends_nonpointwise(tab["_matrix"], T) if tab.get("_matrix") is not None else None
+                if bad_op in ("attr:T", "transpose"):
+                    chk.violation("R01.1", CMQ, inst + ":layout", "matrix assembled through %s of a threshold-dependent array: %s" % (bad_op, show(tab["_matrix"], 160)),
+                                  "cell [..., i, j] holds the count for the same threshold element (a full transpose permutes elements for thresholds of rank >= 2)", ctx.where(CMQ))
+                else:
+                    chk.unknown("R01.1", "cell %s of cm() is built from constructs outside the counting model: %s" % (inst, show(tab[name], 200)))
             else:
                 chk.violation("R01.1", CMQ, inst, show(tab[name]), show(oracle[name]) + "   (README rule: accept iff score %s threshold)" % ACCEPT[(sc, ec)],
                               ctx.where(CMQ))
@@ -120,6 +126,10 @@ def run(ctx, chk, tier):
 
     # ---------------- R01.4 sortedness typestate
     run_sortedness(ctx, chk, tier)
+    # ---------------- prerequisites: objects built through from_labels carry the declared easy counts; cm() has no state
+    from . import c09, c10
+    c09.from_labels_forwarding(ctx, chk)
+    c10.purity(ctx, chk, only=("Scores.cm", "Scores.confusion_matrix", "pointwise_cm"))
 
 
 def value_root(v):
